@@ -28,10 +28,13 @@ type vecCase struct {
 	// unchanged library does — and nothing is asserted then; if it accepts, the object it
 	// returns is the decoded object of an accepted vector like any other.
 	Prior string `json:"prior_vector,omitempty"`
+	// PreQuery: the constructor result has every observer of every view called once before its
+	// single Decode (ignored for nil receivers and when Prior is set).
+	PreQuery bool `json:"queried_before_decode,omitempty"`
 }
 
 func (c vecCase) key() string {
-	return fmt.Sprintf("%d|%d|%v|%s|%s", c.Ver, c.Level, c.NilRecv, c.Input, c.Prior)
+	return fmt.Sprintf("%d|%d|%v|%v|%s|%s", c.Ver, c.Level, c.NilRecv, c.PreQuery, c.Input, c.Prior)
 }
 
 var reuseAccepted, reuseRefused int64
@@ -42,6 +45,10 @@ var reuseAccepted, reuseRefused int64
 func decodeVec3(c vecCase) (o obj3, err error, skip bool) {
 	lv := spec.Level(c.Level)
 	if c.Prior == "" {
+		if c.PreQuery && !c.NilRecv {
+			o, err = decode3Pre(lv, c.Input)
+			return o, err, false
+		}
 		o, err = decode3(lv, c.Input, c.NilRecv)
 		return o, err, false
 	}
@@ -69,6 +76,10 @@ func decodeVec3(c vecCase) (o obj3, err error, skip bool) {
 func decodeVec2(c vecCase) (o obj2, err error, skip bool) {
 	lv := spec.Level(c.Level)
 	if c.Prior == "" {
+		if c.PreQuery && !c.NilRecv {
+			o, err = decode2Pre(lv, c.Input)
+			return o, err, false
+		}
 		o, err = decode2(lv, c.Input, c.NilRecv)
 		return o, err, false
 	}
@@ -347,9 +358,18 @@ var checkC14 = register("C14/vector", func(c vecCase) string {
 		if m != "" {
 			return "with the accessors called on the constructor result before its Decode: " + m
 		}
+		preAccess, preFull = true, true
+		m = c14Once(c, false)
+		preAccess, preFull = false, false
+		if m != "" {
+			return "with every observer called on the constructor result before its Decode: " + m
+		}
 	}
 	return ""
 })
+
+// preFull (with preAccess): every observer of every view, not only the accessors.
+var preFull bool
 
 // preAccess makes decodeForC14 call the accessors on the fresh constructor result before the
 // Decode (what they return then is discarded).
@@ -358,6 +378,9 @@ var preAccess bool
 func decode3ForC14(lv spec.Level, s string, nilRecv bool) (obj3, error) {
 	if !preAccess || nilRecv {
 		return decode3(lv, s, nilRecv)
+	}
+	if preFull {
+		return decode3Pre(lv, s)
 	}
 	o := obj3{level: lv}
 	var err error
@@ -386,6 +409,9 @@ func decode3ForC14(lv spec.Level, s string, nilRecv bool) (obj3, error) {
 func decode2ForC14(lv spec.Level, s string, nilRecv bool) (obj2, error) {
 	if !preAccess || nilRecv {
 		return decode2(lv, s, nilRecv)
+	}
+	if preFull {
+		return decode2Pre(lv, s)
 	}
 	o := obj2{level: lv}
 	var err error
@@ -746,7 +772,7 @@ func vectorPropertyTest(t *testing.T, id string, check func(vecCase) string, rul
 		if nviol > 0 || !mine(i) || lv < minLevel {
 			return
 		}
-		cs := vecCase{Ver: ver, Level: int(lv), NilRecv: i%2 == 0, Input: v.String()}
+		cs := vecCase{Ver: ver, Level: int(lv), NilRecv: i%2 == 0, PreQuery: i%4 == 1, Input: v.String()}
 		nt, cl := vecLabels(ver, v, lv)
 		c.rec.Case("sweeps", cs.key(), nt, append(cl, label)...)
 		if c.rec.SampleCount() < 4 && i%5003 == 0 {
@@ -766,7 +792,7 @@ func vectorPropertyTest(t *testing.T, id string, check func(vecCase) string, rul
 				prior = spec.ProjectV2(representatives(2)[4], lv)
 			}
 			cr := cs
-			cr.NilRecv, cr.Prior = false, prior.String()
+			cr.NilRecv, cr.PreQuery, cr.Prior = false, false, prior.String()
 			c.rec.Case("sweeps", cr.key(), true, "reused-decoder:after-a-successful-decode")
 			evalEnum(c, "vector", cr, check, &nviol)
 		}
@@ -787,7 +813,11 @@ func vectorPropertyTest(t *testing.T, id string, check func(vecCase) string, rul
 			v = gen.Valid(ver, lv).Draw(rt, "vector")
 		}
 		cs := vecCase{Ver: ver, Level: int(lv), NilRecv: rapid.Bool().Draw(rt, "nilrecv"), Input: v.String()}
+		cs.PreQuery = !cs.NilRecv && rapid.IntRange(0, 3).Draw(rt, "prequery") == 0
 		nt, cl := vecLabels(ver, v, lv)
+		if cs.PreQuery {
+			cl = append(cl, "decoder-queried-before-decode")
+		}
 		if reuse && rapid.IntRange(0, 5).Draw(rt, "reused") == 0 {
 			var prior spec.Vec
 			if ver == 3 {
@@ -795,7 +825,7 @@ func vectorPropertyTest(t *testing.T, id string, check func(vecCase) string, rul
 			} else {
 				prior = gen.Valid(2, lv).Draw(rt, "prior")
 			}
-			cs.NilRecv, cs.Prior = false, prior.String()
+			cs.NilRecv, cs.PreQuery, cs.Prior = false, false, prior.String()
 			nt, cl = true, append(cl, "reused-decoder:after-a-successful-decode")
 		}
 		c.rec.Case("rapid", cs.key(), nt, append(cl, "rapid:decoder="+lv.String())...)
@@ -808,7 +838,7 @@ func vectorPropertyTest(t *testing.T, id string, check func(vecCase) string, rul
 
 const reuseRule = " Re-used decoders (C09, C10): one sweep vector in five and one rapid case in six is offered to a decoder object that has already decoded a fully (85%) defined vector of the level successfully; a decoder may refuse that (the unchanged library does: see reused_decoder_second_decode_refused / _accepted), and then nothing is asserted; if it accepts, the returned object is checked like any other decoded object."
 
-const sweepRule = "sweeps (deterministic, complete): every v3 metric x every code x every token position at every decoder covering it; all 2^14 subsets of the v3 optional metrics (values hash-chosen); every v2 metric x code in every group shape at every covering decoder; every move of a contiguous block of up to 11 tokens of a full v3 vector and all 720 orders of its six sub-groups; thorough: all 8! orders of the base tokens of 4 representative vectors. rapid: accepted vectors of both versions at a random covering decoder, constructor or nil receiver, random token order, omission and explicit X (v3), all four group shapes (v2). "
+const sweepRule = "a quarter of the constructor-made decoders have every observer of every view called once before their single Decode. sweeps (deterministic, complete): every v3 metric x every code x every token position at every decoder covering it; all 2^14 subsets of the v3 optional metrics (values hash-chosen); every v2 metric x code in every group shape at every covering decoder; every move of a contiguous block of up to 11 tokens of a full v3 vector and all 720 orders of its six sub-groups; thorough: all 8! orders of the base tokens of 4 representative vectors. rapid: accepted vectors of both versions at a random covering decoder, constructor or nil receiver, random token order, omission and explicit X (v3), all four group shapes (v2). "
 
 // floodCase: a vector decoded after other vectors were decoded by the same kind of decoder
 // in the same process (whatever the library keeps between decodes must not leak into it).
